@@ -8,7 +8,7 @@ EXPLANATION = (
     "constants 16384 (public key) and 64 (proof), each used by its own loader; (R2) the JSON point adapters agree: "
     "encoder and decoder use the same base64 engine constant, the decoder accepts exactly 32 decoded bytes, "
     "Evaluation.output is wired to this pair in both directions, and ProofDLEQ / ServerPublicKey / Point derive "
-    "both Serialize and Deserialize; (R3) decode errors (serde, base64, length) flow into the returned Err - the "
+    "both Serialize and Deserialize; (R4) both binary encoders return exactly bincode::serialize(self); (R3) decode errors (serde, base64, length) flow into the returned Err - the "
     "Ok value is exactly the decoder's payload.  NOT decided: equality of restored and original values (round "
     "trip is a runtime relation), behaviour of bincode/serde themselves.")
 ASSUMPTIONS = ["bincode 1.3 / serde derive produce symmetric encodings for derived Serialize/Deserialize"]
@@ -71,6 +71,15 @@ def run(ctx):
         fs0 = Q.facts_of_variant(eng, ret, 0) or set()
         ctx.add("C15.R3", root + "#ok-requires-valid-encoding", any(t.op == "bincode_valid" and v == 1 for t, rel, v in fs0),
                 "Ok must require that decoding succeeded", at)
+    # ---- R4 the binary encoders return exactly the bincode encoding of the value (nothing appended, no shared scratch)
+    for root in (P + "ServerPublicKey::serialize_to_bincode", P + "ProofDLEQ::serialize_to_bincode"):
+        eng, ret, st, fr = ctx.root(root)
+        okv = ok_variant(ret, 0)
+        pay = okv[2][0] if okv else None
+        oks = pay is not None and pay.op == "bincode_ser" and Q.path_of(pay.args[0]) == "self"
+        ctx.add("C15.R4", root + "#returns-the-encoding", oks,
+                "serialize_to_bincode must return exactly bincode::serialize(self); found %s" % S(pay, 4), ctx.fn(root).loc, sample=S(pay, 3))
+    ctx.floor("C15.R4", 2)
     ctx.floor("C15.R1", 6)
 
     # ---- R2 adapter agreement ---------------------------------------------------------------------------------
